@@ -31,6 +31,7 @@ func c13(c *eng.Ctx, r *eng.Report) {
 		"R13.6 a dealer deals one polynomial per group: the seed, the coefficients, the shares and the published dealer key are computed from the miner's long-term secret and the group hash with no randomness, clock or environment source in their cone, so a dealer whose context is rebuilt (restart, re-delivered init) hands the remaining members pieces of the same polynomial the others already hold. " +
 		"R13.7 recovery keeps nothing between calls and runs sequentially: no cache, package-variable store, shared object or goroutine in the cone of recoverSignature/RecoverGroupSignature (a memo keyed by the signer *set* and holding per-*position* coefficients is right for the first arrival order only). " +
 		"R13.8 a member signs with the key the DKG gave it, also after a restart: the record written for the signing key is exactly SignSecKey.Serialize() (a variable-length big-endian integer) and what is read back is handed to Deserialize whole — no re-slicing at a fixed width, nothing appended to the same record; " +
+		"R13.12 a sign key or id handed over as hex is the key that was written: BnInt.getHexString writes (*big.Int).Text(16), which drops leading zeros, and BnInt.setHexString reads the digits back with (*big.Int).SetString(_, 16) on the same field — a byte-wise hex decoder mis-reads the one key in sixteen that has an odd number of digits (value >> 4), and that member's shares then fail under its public share; " +
 		"R13.11 the recovered group signature is brought to its final representation before it is published: in genGroupSign every store to GroupSignGenerator.groupSign is followed, before the function returns and so under the caller's write lock, by a Serialize of that field — serialising a point makes it affine in place, and the readers (SignRecovered under the read lock, GetGroupSign().Serialize() under none) share the point through the Signature's pointer, so an un-normalised point is rewritten by several readers at once and one of them hands out garbage; " +
 		"R13.9 a share piece reaches only the member it was evaluated for: the two senders of share pieces (the initial deal and the answer to a re-request) use the unicast SendToStranger with the receiver's id — a ResponseSharePiece carries no receiver field, so a group-wide spread lets another member that still misses this dealer's piece adopt f(requester). " +
 		"R13.10 all members sign the same curve point H(m): the big-endian encodings between message and point (HashToPoint's coordinates, id and scalar encoders) are right-aligned, each in a buffer of its own (C14's R14.5 under this property's id — a coordinate with a leading zero byte must not inherit bytes of the previous one); " +
@@ -47,6 +48,7 @@ func c13(c *eng.Ctx, r *eng.Report) {
 	c13KeyAtRest(c, r)
 	c13PieceRouting(c, r)
 	c13PublishNormalised(c, r)
+	hexCodecAgreeAs(c, r, "R13.12")
 	// R13.10: every member signs the same point H(m): the fixed-width encodings on the way from message to curve
 	// point (HashToPoint, the id and scalar encoders) are right-aligned in a buffer of their own (C14's R14.5 here)
 	c14LeftPadAs(c, r, "R13.10")
@@ -1223,4 +1225,44 @@ func c13PublishNormalised(c *eng.Ctx, r *eng.Report) {
 	if n == 0 {
 		r.Fail(rule, "publish-normalised:none", c.Pos(fn.Pos()), "genGroupSign no longer stores GroupSignGenerator.groupSign: the rule has lost its anchor")
 	}
+}
+
+// hexCodecAgreeAs: writer and reader of BnInt's hex form agree (R13.12, R14.14).
+func hexCodecAgreeAs(c *eng.Ctx, r *eng.Report, rule string) {
+	r.Min(rule, 1)
+	get := c.Func("consensus/groupsig", "(*BnInt).getHexString")
+	set := c.Func("consensus/groupsig", "(*BnInt).setHexString")
+	if !r.Anchor(get != nil && set != nil, rule, "groupsig.(*BnInt).getHexString / setHexString") {
+		return
+	}
+	wbase, rbase := int64(-1), int64(-1)
+	for _, s := range eng.Sites(get) {
+		if s.Name() == "(*math/big.Int).Text" {
+			if k, ok := eng.ConstInt(s.Common().Args[1]); ok {
+				wbase = k
+			}
+		}
+	}
+	other := ""
+	for _, s := range eng.Sites(set) {
+		switch {
+		case s.Name() == "(*math/big.Int).SetString":
+			if _, f := eng.FieldOf(s.Common().Args[0]); f == "v" {
+				if k, ok := eng.ConstInt(s.Common().Args[2]); ok {
+					rbase = k
+				}
+			}
+		case strings.Contains(s.Name(), "Hex2Bytes") || strings.Contains(s.Name(), "FromHex") || strings.Contains(s.Name(), "hex.Decode"):
+			other = s.Name()
+		}
+	}
+	if wbase < 0 {
+		r.Pass(rule, "hex-codec:agree", c.Pos(get.Pos()), "getHexString does not use the minimal-digit writer big.Int.Text; nothing to compare")
+		return
+	}
+	msg := fmt.Sprintf("getHexString writes big.Int.Text(%d) — minimal digits, leading zeros dropped — but setHexString does not read them back with big.Int.SetString(_, %d) on the same value", wbase, wbase)
+	if other != "" {
+		msg += " (it decodes with " + other + ", which works on whole bytes)"
+	}
+	r.Check(rbase == wbase && other == "", rule, "hex-codec:agree", c.Pos(set.Pos()), fmt.Sprintf("writer Text(%d), reader SetString(_, %d)", wbase, rbase), msg+": a key or id whose hex form has an odd number of digits (one in sixteen) loads as value >> 4 — a member whose sign key was provisioned as hex signs shares that fail under its public share, and threshold subsets containing it recover a different, invalid group signature")
 }
